@@ -351,6 +351,49 @@ def all_nodes(graph):
     return out
 
 
+def scope_audit(graph):
+    """Name scoping of a translated function (what serialization keeps): every node input must be a graph input, an
+    initializer or the output of an EARLIER node of the same graph or of an enclosing graph.  Returns (dangling, reuse):
+    `dangling` = descriptions of operands that are not defined where they are read (such an operand has no dtype and no
+    value: the literal/tensor it stands for never reaches the op); `reuse` = number of (constant, sibling) pairs that are
+    CastLike'd/Cast in one block and needed again outside that block (sibling block or enclosing graph) — the class of
+    programs on which a per-function memo of casts would hand out a value from a scope that is not visible."""
+    dangling, first_path, reuse = [], {}, set()
+
+    def visit(g, visible, path):
+        visible = set(visible) | {v.name for v in g.inputs} | {k for k in getattr(g, "initializers", {})}
+        for idx, n in enumerate(g):
+            for v in n.inputs:
+                if v is not None and v.name not in visible:
+                    dangling.append(f"{n.op_type}({', '.join('' if w is None else str(w.name) for w in n.inputs)}) in graph {g.name!r} reads "
+                                    f"{v.name!r}, which is not defined in its scope")
+            if n.op_type in ("CastLike", "Cast") and n.inputs and n.inputs[0] is not None:
+                # the pair is keyed the way a memo would key it; for a dangling read (the memo at work) recover it from the reader
+                key = (n.inputs[0].name, n.inputs[1].name if len(n.inputs) > 1 and n.inputs[1] is not None else None)
+                if key not in first_path:
+                    first_path[key] = path
+                elif path[: len(first_path[key])] != first_path[key]:
+                    reuse.add(key)
+            for a in n.attributes.values():
+                if a.type.name == "GRAPH" and a.value is not None:
+                    visit(a.value, visible, path + ((idx, a.name),))
+                elif a.type.name == "GRAPHS" and a.value:
+                    for j, sg in enumerate(a.value):
+                        visit(sg, visible, path + ((idx, a.name, j),))
+            visible |= {o.name for o in n.outputs if o is not None}
+
+    visit(graph, set(), ())
+    return dangling, len(reuse)
+
+
+def audit_into(stats, graph):
+    """Run `scope_audit`, count, and return the first dangling operand (or None)."""
+    dangling, reuse = scope_audit(graph)
+    stats["scope_audit_graphs"] += 1
+    stats["scope_audit_cast_needed_again_outside_its_block"] += reuse
+    return dangling[0] if dangling else None
+
+
 def run_static(cases, stats, cast_log, sources=None):
     """Returns list of results (canonical outs or 'ERR:…' / 'REFUSED:…')."""
     import onnx_ir as ir
@@ -374,6 +417,10 @@ def run_static(cases, stats, cast_log, sources=None):
         try:
             graph = fn[name].function_ir.graph
             nodes = all_nodes(graph)
+            bad = audit_into(stats, graph)
+            if bad is not None:
+                results.append([("?", "dangling operand: " + bad)])
+                continue
             target = None
             for n in reversed(nodes):
                 if n.op_type == case["op"]:
@@ -1023,6 +1070,10 @@ def check_attr_params(run, drv, cases, stats):
             stats["attr_refused:" + err[name][0] + ":" + err[name][1].replace("\n", " ")[:50]] += 1
             continue
         graph = fn[name].function_ir.graph
+        bad = audit_into(stats, graph)
+        if bad is not None:
+            problems.append((c, "static", "property", f"attribute parameter `alpha: {c['attr_kind']}`: the translated function is not well scoped: {bad} ; program:\n{bodies[i][1]}", None))
+            continue
         target = next((nd for nd in reversed(all_nodes(graph)) if nd.op_type == c["op"]), None)
         if target is None:
             stats["attr_refused"] += 1
@@ -1301,6 +1352,10 @@ def check_scope_model(run, drv, progs, stats):
             continue
         model = answers[i].split(" ") if answers[i] else []
         real = {}
+        bad = audit_into(stats, fn[name].function_ir.graph)
+        if bad is not None:
+            problems.append((" ".join(instrs), bodies[i][1], f"the translated function is not well scoped: {bad}"))
+            continue
         for n in all_nodes(fn[name].function_ir.graph):
             if n.op_type == "Mul" and n.outputs and n.outputs[0].name and n.outputs[0].name.startswith("u"):
                 k = n.outputs[0].name[1:]
@@ -1311,6 +1366,331 @@ def check_scope_model(run, drv, progs, stats):
         stats["scopemodel_uses"] += nuses
         stats["scopemodel_castable"] += got.count("1")
         stats["scopemodel_depth_max"] = max(stats["scopemodel_depth_max"], max((ln.count("    ") for ln in body.split("\n")), default=0))
+        if got != model:
+            k = next((j for j in range(min(len(got), len(model))) if got[j] != model[j]), None)
+            problems.append((" ".join(instrs), bodies[i][1], f"use #{k}: converter {'CastLikes' if k is not None and got[k] == '1' else 'does not CastLike'} the operand, "
+                             f"model says {model[k] if k is not None else model}; all uses impl={''.join(got)} model={''.join(model)}"))
+    scriptgen.release(modname)
+    return problems
+
+
+# --------------------------------------------------------------------------- converter: structured programs with loops (round 5)
+#
+# Free-form statement trees (no contrived live outputs): literal / tensor assignments, uses, `if c:` with both branches,
+# `for i in range(3):`, `while w:`.  The live outputs of every If and the loop-carried names of every loop are computed
+# HERE, independently of onnxscript/_internal/analysis.py (same definitions: liveness with loops iterated to a fixed point,
+# `exposed_uses`, `assigned_vars`), and handed to the model as annotations of `XB:`/`I:`/`F..:`/`XL:`.  A disagreement of
+# the analysis therefore shows up as a disagreement of this stream (refusal or castable answers).
+
+
+def _nid(name: str) -> int:
+    return {"v": 0, "i": 1000, "w": 2000}[name[0]] + int(name[1:])
+
+
+def ast_assigned(block) -> set:
+    out = set()
+    for s in block:
+        k = s[0]
+        if k in ("lit", "ten", "wupd"):
+            out.add(s[1])
+        elif k == "if":
+            out |= ast_assigned(s[1]) | ast_assigned(s[2])
+        elif k == "for":
+            out |= ast_assigned(s[2]) | {s[1]}
+        elif k == "while":
+            out |= ast_assigned(s[2])
+    return out
+
+
+def ast_live_block(block, out, rec):
+    for s in reversed(block):
+        out = ast_live_stmt(s, out, rec)
+    return out
+
+
+def ast_live_stmt(s, out, rec):
+    rec[id(s)] = frozenset(out)
+    k = s[0]
+    if k in ("lit", "ten"):
+        return out - {s[1]}
+    if k == "wupd":
+        return (out - {s[1]}) | {s[1]}
+    if k == "use":
+        return out | {s[1]}
+    if k == "if":
+        return ast_live_block(s[1], out, rec) | ast_live_block(s[2], out, rec)
+    if k == "for":
+        prev, curr = None, out
+        while curr != prev:
+            prev = curr
+            curr = (ast_live_block(s[2], prev, rec) - {s[1]}) | out
+        return curr
+    if k == "while":
+        cond = {s[1]}
+        prev, curr = None, out | cond
+        while curr != prev:
+            prev = curr
+            curr = ast_live_block(s[2], prev, rec) | cond | out
+        return curr
+    raise AssertionError(k)
+
+
+def ast_exposed(block, out=frozenset()):
+    out = set(out)
+    for s in reversed(block):
+        k = s[0]
+        if k in ("lit", "ten"):
+            out = out - {s[1]}
+        elif k == "wupd":
+            out = (out - {s[1]}) | {s[1]}
+        elif k == "use":
+            out = out | {s[1]}
+        elif k == "if":
+            out = ast_exposed(s[1], out) | ast_exposed(s[2], out)
+        elif k == "for":
+            out = (ast_exposed(s[2]) - {s[1]}) | (out - {s[1]})
+        elif k == "while":
+            out = ast_exposed(s[2]) | {s[1]} | out
+    return out
+
+
+def ast_compile(block, rec, instrs, lines, indent, stats=None):
+    """The converter's order of operations on a block -> OV.Scope instructions, and the Python text."""
+    pad = "    " * indent
+    names = lambda ns: ",".join(str(_nid(n)) for n in sorted(ns))
+    for s in block:
+        k = s[0]
+        if k == "lit":
+            instrs.append(f"L{_nid(s[1])}")
+            lines.append(f"{pad}{s[1]} = {s[2]}")
+        elif k == "ten":
+            instrs.append(f"T{_nid(s[1])}")
+            lines.append(f"{pad}{s[1]} = {'x + x' if s[1][0] == 'v' else 'opset18.Not(c)'}")
+        elif k == "wupd":
+            instrs.append(f"T{_nid(s[1])}")
+            lines.append(f"{pad}{s[1]} = opset18.Not({s[1]})")
+        elif k == "use":
+            instrs.append(f"U{_nid(s[1])}")
+            lines.append(f"{pad}u{s[2]} = x * {s[1]}")
+        elif k == "if":
+            outs = (ast_assigned(s[1]) | ast_assigned(s[2])) & rec[id(s)]
+            lines.append(f"{pad}if c:")
+            instrs.append("E")
+            ast_compile(s[1], rec, instrs, lines, indent + 1, stats)
+            instrs.append("XB:" + names(outs))
+            if s[2]:
+                lines.append(f"{pad}else:")  # an If without else: the else block is translated as an empty block
+            instrs.append("E")
+            ast_compile(s[2], rec, instrs, lines, indent + 1, stats)
+            instrs.append("XB:" + names(outs))
+            instrs.append("I:" + names(outs))
+        elif k in ("for", "while"):
+            state = ast_assigned(s[2]) & (ast_exposed(s[2]) | rec[id(s)])
+            if k == "for":
+                lines.append(f"{pad}for {s[1]} in range(3):")
+                instrs.append(f"F{_nid(s[1])}:" + names(state))
+            else:
+                lines.append(f"{pad}while {s[1]}:")
+                instrs.append("F-:" + names(state))
+            ast_compile(s[2], rec, instrs, lines, indent + 1, stats)
+            instrs.append("XL:" + names(state))
+
+
+def gen_scope_ast(rng, pool=4, max_depth=3, top_len=8, wild=0.02):
+    """A random statement tree as (instructions of OV.Scope, Python body, number of uses).  `defined` tracks the names that
+    have a value on every path (so that most programs are accepted); with probability `wild` per choice the generator
+    ignores it, which produces each of the modelled refusals."""
+    st = dict(uses=0, loops=0, tmp=100)
+
+    def pick_use(defined):
+        if defined and rng.random() >= wild:
+            return rng.choice(sorted(defined))
+        return f"v{rng.randrange(pool)}"
+
+    def stmt_use(n):
+        st["uses"] += 1
+        return ("use", n, st["uses"] - 1)
+
+    def assign(n, defined, lit=None):
+        lit = rng.random() < 0.5 if lit is None else lit
+        defined.add(n)
+        return ("lit", n, rng.choice(SCOPE_LITS)) if lit else ("ten", n)
+
+    def pick_target(defined, in_loop):
+        # inside a loop a name without a value before the loop cannot be carried: prefer names that have one
+        if in_loop and rng.random() >= wild:
+            cand = sorted(n for n in defined if n[0] == "v" and int(n[1:]) < pool)
+            if cand:
+                return rng.choice(cand)
+        return f"v{rng.randrange(pool)}"
+
+    def block(depth, length, defined, in_loop):
+        out = []
+        for _ in range(length):
+            r = rng.random()
+            if r < 0.33:
+                out.append(assign(pick_target(defined, in_loop), defined))
+            elif r < 0.40:
+                st["tmp"] += 1
+                out.append(assign(f"v{st['tmp']}", defined))
+                out.append(stmt_use(f"v{st['tmp']}"))
+            elif r < 0.70 or depth >= max_depth:
+                out.append(stmt_use(pick_use(defined)))
+            else:
+                q = rng.random()
+                if q < 0.45:
+                    d1, d2 = set(defined), set(defined)
+                    thn = block(depth + 1, rng.randint(1, 3), d1, in_loop)
+                    els = block(depth + 1, rng.randint(0, 3), d2, in_loop)
+                    for n in sorted(ast_assigned(thn) - ast_assigned(els) - defined):
+                        if n[0] == "v" and rng.random() >= wild:
+                            els.append(assign(n, d2))  # a live output needs a value on both sides
+                    both = d1 & d2
+                    out.append(("if", thn, els))
+                    cand = sorted(n for n in (ast_assigned(thn) | ast_assigned(els)) & both if n[0] == "v")
+                    if not cand and rng.random() >= wild:
+                        n = pick_target(defined, in_loop)
+                        thn.append(assign(n, d1))
+                        if n not in defined:
+                            els.append(assign(n, d2))
+                        both = d1 & d2
+                        cand = [n]
+                    defined |= both
+                    for n in cand:
+                        if rng.random() < 0.6 or n == cand[0]:
+                            out.append(stmt_use(n))
+                else:
+                    st["loops"] += 1
+                    is_for = q < 0.8
+                    lv = f"i{st['loops']}" if is_for else f"w{st['loops']}"
+                    if not is_for:
+                        out.append(("ten", lv))
+                    d1 = set(defined) | ({lv} if is_for else set())
+                    body = block(depth + 1, rng.randint(1, 4), d1, True)
+                    carried = sorted(n for n in ast_assigned(body) & defined if n[0] == "v")
+                    if is_for and not carried and rng.random() >= wild:
+                        n = pick_target(defined, True)
+                        if n in defined:
+                            body.append(assign(n, d1))
+                            carried = [n]
+                    if not is_for:
+                        body.append(("wupd", lv))
+                    out.append(("for" if is_for else "while", lv, body))
+                    for n in carried:
+                        if rng.random() < 0.6 or n == carried[0]:
+                            out.append(stmt_use(n))
+        if not out and length:
+            out.append(assign(pick_target(defined, in_loop), defined))
+        return out
+
+    defined = set()
+    prog = [assign("v0", defined, lit=True)] + block(0, top_len, defined, False)
+    rec = {}
+    ast_live_block(prog, frozenset(), rec)
+    instrs, lines = [], []
+    ast_compile(prog, rec, instrs, lines, 1)
+    return instrs, "\n".join(lines), st["uses"]
+
+
+def scope_ast_fixed():
+    """Boundary programs, always run first: each modelled refusal once, and the If/Loop boundary shapes (C01-D24)."""
+    U = lambda n, k: ("use", n, k)
+    progs = [
+        [("lit", "v0", "2"), ("for", "i1", [U("v0", 0)])],                                            # loop has no effect
+        [("lit", "v0", "2"), ("for", "i1", [("lit", "v1", "2")]), U("v1", 0)],                        # carried name unbound before the loop
+        [("lit", "v0", "2"), ("if", [("lit", "v1", "2")], [("lit", "v0", "3")]), U("v1", 0)],         # live output missing on one side
+        [("lit", "v0", "2"), ("if", [("lit", "v1", "2")], []), U("v1", 0)],                            # the same without else (IndexError variant)
+        [("lit", "v0", "2"), ("if", [("lit", "v1", "2")], [("lit", "v1", "3")])],                      # If without live outputs
+        [("lit", "v1", "2"), ("for", "i1", [U("v1", 0), ("lit", "v1", "2"), U("v1", 1)]), U("v1", 2)],  # literal carried by a loop
+        [("lit", "v0", "2"), ("if", [("lit", "v1", "1")], [("lit", "v1", "1")]), U("v1", 0), U("v0", 1)],
+        [("lit", "v1", "2.5"), ("ten", "w1"), ("while", "w1", [U("v1", 0), ("wupd", "w1")]), U("v1", 1)],  # not carried: stays castable
+        [("lit", "v1", "2.5"), ("for", "i1", [("if", [("for", "i2", [U("v1", 0), ("ten", "v2")])], []), ("lit", "v2", "1")]), U("v1", 1)],
+    ]
+    out = []
+    for prog in progs:
+        rec = {}
+        ast_live_block(prog, frozenset(), rec)
+        instrs, lines = [], []
+        ast_compile(prog, rec, instrs, lines, 1)
+        out.append((instrs, "\n".join(lines), sum(1 for t in instrs if t.startswith("U"))))
+    return out
+
+
+SCOPE2_MODELLED_REFUSALS = ("Unbound name", "not assigned a value along a conditional", "do not have any output variable",
+                            "The loop has no effect")
+
+
+def check_scope_ast(run, drv, progs, stats):
+    """Structured programs (If / for / while, free-form): refusal by one of the modelled error branches and
+    `Converter._is_castable` at every use vs OV.Scope.run (`scope2`)."""
+    bodies = []
+    for i, (instrs, body, nuses) in enumerate(progs):
+        bodies.append((f"f{i}", f"@script(default_opset=opset18)\ndef f{i}(x: DOUBLE[2], c: BOOL):\n{body}\n    r = x + x\n    return r\n"))
+    for instrs, body, _ in progs:
+        # what `scope_stack_balanced` assumes: blocks are entered and left in pairs, depth 0 at the end
+        d = 0
+        for t in instrs:
+            d += 1 if (t == "E" or t.startswith("F")) else -1 if t.startswith(("XB:", "XL:", "X:")) else 0
+            if d < 0:
+                break
+        if d != 0:
+            raise core.Infra(f"harness: unbalanced scope program {' '.join(instrs)}")
+    answers = drv.ask(["scope2 " + " ".join(instrs) for instrs, _, _ in progs])
+    fn, err, modname = scriptgen.compile_functions(bodies, header_extra=HEADER_EXTRA)
+    problems = []
+    for i, (instrs, body, nuses) in enumerate(progs):
+        name = f"f{i}"
+        stats["scope2_programs"] += 1
+        verdict, _, obs = answers[i].partition(" ")
+        model = obs.split(" ") if obs else []
+        if any(t.startswith("F") and not t.startswith("F-") for t in instrs):
+            stats["scope2_with_for"] += 1
+        if any(t.startswith("F-") for t in instrs):
+            stats["scope2_with_while"] += 1
+        if any(t.startswith("I:") for t in instrs):
+            stats["scope2_with_if"] += 1
+        if name in err:
+            msg = err[name][1].replace("\n", " ")
+            kind = next((m for m in SCOPE2_MODELLED_REFUSALS if m in msg), None)
+            if kind is None and err[name][0] == "IndexError" and any(a == "E" and b.startswith("XB:") and b != "XB:" for a, b in zip(instrs, instrs[1:])):
+                # `_translate_block` reports "not assigned a value along a conditional branch" at `stmts[0]`: with an
+                # empty else block that expression itself raises IndexError — the same refusal branch, a worse diagnostic
+                kind = "not assigned a value along a conditional (IndexError: empty else block)"
+            stats["scope2_refused"] += 1
+            stats["scope2_refused:" + (kind or (err[name][0] + ":" + msg[:60]))] += 1
+            if verdict != "refused":
+                problems.append((" ".join(instrs), bodies[i][1], f"converter refuses the program ({err[name][0]}: {msg[:160]}), model translates it"))
+            elif kind is None:
+                problems.append((" ".join(instrs), bodies[i][1], f"converter refuses the program with an error that is not modelled ({err[name][0]}: {msg[:160]})"))
+            continue
+        if verdict != "ok":
+            problems.append((" ".join(instrs), bodies[i][1], f"model refuses the program ({answers[i]}), converter translates it"))
+            continue
+        real = {}
+        in_loop = set()
+        bad = audit_into(stats, fn[name].function_ir.graph)
+        if bad is not None:
+            problems.append((" ".join(instrs), bodies[i][1], f"the translated function is not well scoped: {bad}"))
+            continue
+
+        def walk(graph, inside):
+            for n in graph:
+                if n.op_type == "Mul" and n.outputs and n.outputs[0].name and n.outputs[0].name.startswith("u") and n.outputs[0].name[1:].isdigit():
+                    prod = n.inputs[1].producer() if n.inputs[1] is not None else None
+                    real[int(n.outputs[0].name[1:])] = "1" if (prod is not None and prod.op_type == "CastLike") else "0"
+                    if inside:
+                        in_loop.add(int(n.outputs[0].name[1:]))
+                for a in n.attributes.values():
+                    if hasattr(a, "type") and a.type.name == "GRAPH":
+                        walk(a.value, inside or n.op_type == "Loop")
+
+        walk(fn[name].function_ir.graph, False)
+        got = [real.get(k, "?") for k in range(nuses)]
+        stats["scope2_uses"] += nuses
+        stats["scope2_uses_in_loop"] += len(in_loop)
+        stats["scope2_castable"] += got.count("1")
+        stats["scope2_castable_in_loop"] += sum(1 for k in in_loop if real[k] == "1")
+        stats["scope2_not_castable_in_loop"] += sum(1 for k in in_loop if real[k] == "0")
         if got != model:
             k = next((j for j in range(min(len(got), len(model))) if got[j] != model[j]), None)
             problems.append((" ".join(instrs), bodies[i][1], f"use #{k}: converter {'CastLikes' if k is not None and got[k] == '1' else 'does not CastLike'} the operand, "
@@ -1594,7 +1974,10 @@ def session_cases(rows, rng, ncalls):
                 args.append(enc_lit(rng.choice(SESSION_LITS)))
             else:
                 args.append("n")
-        out.append(dict(op=r["op"], opset=rng.choice(r["opsets"]), sig=r["sig"], raw=r["raw"], args=args, kind="session"))
+        # round 5: a third of the calls are traced inside `GraphBuilder.subgraph(...)` (depth 1 or 2): child builders delegate
+        # the constant cache to the root builder, so the model (one cache per session) must keep answering
+        sub = rng.choice([0, 0, 0, 0, 1, 1, 2])
+        out.append(dict(op=r["op"], opset=rng.choice(r["opsets"]), sig=r["sig"], raw=r["raw"], args=args, kind="session", sub=sub))
     return out
 
 
@@ -1610,7 +1993,26 @@ def run_session_real(calls):
 
         args, tensors = py_args(case, mk)
         try:
-            vals = gb._cast_inputs(gb._get_schema(case["op"], "", case["opset"]), args)
+            box = []
+
+            def call_on(b):
+                box.append(b._cast_inputs(b._get_schema(case["op"], "", case["opset"]), args))
+
+            def traced(depth):
+                def trace(op):
+                    if depth <= 1:
+                        call_on(op.builder)
+                    else:
+                        op.builder.subgraph(traced(depth - 1), inputs=[], outputs=[], name=f"sub{k}_{depth - 1}")
+                    return []
+                return trace
+
+            sub = case.get("sub", 0)
+            if sub:
+                gb.subgraph(traced(sub), inputs=[], outputs=[], name=f"sub{k}_{sub}")
+            else:
+                call_on(gb)
+            vals = box[0]
             outs = []
             for v in vals:
                 o = read_builder_value(v, tensors, set())
@@ -1618,6 +2020,9 @@ def run_session_real(calls):
                 if o[0] == "C":
                     src = v if v.producer() is None else v.producer().inputs[0]
                     name = canon_real_name(src.name)
+                    if src.name not in gb._graph.initializers:
+                        # a cached constant is handed to every scope of the session: it must live in the root graph
+                        o = ("?", f"initializer {src.name!r} is not registered in the root graph")
                 outs.append((o, name))
             results.append(outs)
         except Exception as e:
@@ -1635,6 +2040,7 @@ def check_sessions(run, drv, sessions, stats):
         body, size = ans.rsplit(" #", 1)
         parts = body.split(" ;; ")
         real, rsize = run_session_real(sess)
+        scopes_of = {}
         stats["session_count"] += 1
         stats["session_calls"] += len(sess)
         stats["builder_cases"] += len(sess)
@@ -1666,6 +2072,13 @@ def check_sessions(run, drv, sessions, stats):
                     bad = f"call {k} {case_key(c)}: initializers {r_names} ; model {m_names}"
                     break
                 stats["session_shared_initializers"] += len([n for n in r_names if n != "-"]) - len({n for n in r_names if n != "-"})
+                if c.get("sub"):
+                    stats["session_calls_in_subgraph"] += 1
+                    stats[f"session_calls_in_subgraph_depth{c['sub']}"] += 1
+                for n in r_names:
+                    if n != "-":
+                        scopes_of.setdefault(n, set()).add(c.get("sub", 0))
+        stats["session_initializers_shared_across_scopes"] += sum(1 for v in scopes_of.values() if len(v) > 1)
         if bad:
             problems.append((sess, bad))
     return problems
@@ -1870,6 +2283,13 @@ def main(run: core.Run) -> None:
                 print(f"REPLAY tie scope program: {d}")
             if probs:
                 run.violation(c, "replayed scope program still disagrees with the model")
+        elif "scope2_program" in c:
+            body = c["source"].split("\n", 2)[2].rsplit("\n    r = x + x", 1)[0]
+            probs = check_scope_ast(run, drv, [(c["scope2_program"].split(" "), body, sum(1 for t in c["scope2_program"].split(" ") if t.startswith("U")))], stats)
+            for _, _, d in probs:
+                print(f"REPLAY tie structured scope program: {d}")
+            if probs:
+                run.violation(c, "replayed structured scope program still disagrees with the model")
         elif "session" in c:
             sess = c["session"]
             for it in sess:
@@ -1945,6 +2365,14 @@ def main(run: core.Run) -> None:
     if stats["scopemodel_programs"] and stats["scopemodel_refused"] > 0.3 * stats["scopemodel_programs"]:
         raise core.Infra(f"converter refused {stats['scopemodel_refused']} of {stats['scopemodel_programs']} scope programs")
 
+    # ---- converter: structured programs with for/while loops and free-form Ifs vs OV.Scope (round 5)
+    progs2 = scope_ast_fixed() + [gen_scope_ast(run.rng) for _ in range(run.size(120, 1500))]
+    scope_ast_tie = []
+    for k in range(0, len(progs2), 250):
+        scope_ast_tie.extend(check_scope_ast(run, drv, progs2[k : k + 250], stats))
+    if stats["scope2_refused"] > 0.5 * stats["scope2_programs"]:
+        raise core.Infra(f"converter refused {stats['scope2_refused']} of {stats['scope2_programs']} structured scope programs")
+
     # ---- which positional arguments are inputs: param_manipulation vs OV.Call
     call_tie = check_calls(run, drv, sweep_rows if quick else rows, run.rng, stats, run.size(250, 2500))
 
@@ -2005,7 +2433,7 @@ def main(run: core.Run) -> None:
         stats["known_" + fid] = known[fid]
 
     def slim(c):
-        return {k: c[k] for k in ("op", "opset", "sig", "raw", "args", "kind", "placement", "form", "order", "attr_kind", "default") if k in c}
+        return {k: c[k] for k in ("op", "opset", "sig", "raw", "args", "kind", "placement", "form", "order", "attr_kind", "default", "sub") if k in c}
 
     if prop_fail:
         prop_fail.sort(key=lambda p: (len(p[0]["args"]), len(str(p[0]["args"]))))
@@ -2039,7 +2467,13 @@ def main(run: core.Run) -> None:
             run.violation({"scope_program": instrs, "source": src, "detail": detail,
                            "broken": "correspondence OV.Scope.run vs Converter._castable/_locals bookkeeping"},
                           f"converter and model disagree on which named operand is a polymorphic constant: {detail}\n{src}",
-                          no_input="does not CastLike" not in detail)
+                          no_input=not ("does not CastLike" in detail or "not defined in its scope" in detail))
+        elif scope_ast_tie:
+            instrs, src, detail = min(scope_ast_tie, key=lambda v: len(v[0]))
+            run.violation({"scope2_program": instrs, "source": src, "detail": detail, "others": len(scope_ast_tie) - 1,
+                           "broken": "correspondence OV.Scope.run (loops, If outputs, refusals) vs Converter._translate_if_stmt/_translate_loop_stmt/_castable"},
+                          f"converter and model disagree on a structured program: {detail}\n{src}",
+                          no_input=not ("does not CastLike" in detail or "not defined in its scope" in detail))
         elif call_tie:
             opn, v, n, ae, detail = call_tie[0]
             run.violation({"call": dict(op=opn, opset=v, arguments=n, allow_extra_args=ae), "detail": detail, "others": len(call_tie) - 1,
@@ -2091,7 +2525,11 @@ def main(run: core.Run) -> None:
                 "tail_nonhomogeneous", "tail_toomany", "conflicting_siblings", "arg_tensor_unknown", "arg_none", "arg_list",
                 "has_concrete_typed_formal", "builder_end_to_end", "scope_if_outer", "scope_loop_outer", "scope_if_inner", "scope_top",
                 "history_calls", "session_calls", "session_shared_initializers", "session_err_overflow", "session_err_tooMany",
-                "scopemodel_uses", "scopemodel_castable", "calls_ok", "calls_ERR_missing", "calls_ERR_tooMany", "static_cast", "static_refused_below_opset15", "calls_static", "calls_with_keywords", "calls_placeholder", "attr_castlike", "attr_bool", "attr_bool_default", "attr_int", "attr_float_default", "function_cases",
+                "scopemodel_uses", "scopemodel_castable", "scope2_with_for", "scope2_with_while", "scope2_with_if", "scope2_castable_in_loop",
+                "scope2_not_castable_in_loop", "scope2_refused:Unbound name", "scope2_refused:not assigned a value along a conditional",
+                "scope2_refused:do not have any output variable", "scope2_refused:The loop has no effect", "scope_audit_graphs",
+                "scope_audit_cast_needed_again_outside_its_block", "session_calls_in_subgraph", "session_calls_in_subgraph_depth2",
+                "session_initializers_shared_across_scopes", "calls_ok", "calls_ERR_missing", "calls_ERR_tooMany", "static_cast", "static_refused_below_opset15", "calls_static", "calls_with_keywords", "calls_placeholder", "attr_castlike", "attr_bool", "attr_bool_default", "attr_int", "attr_float_default", "function_cases",
                 "function_const_value", "cache_hits", "cache_err_overflow", "ort_cast_validated"]
     zero = [k for k in required if not stats[k]]
     run.coverage["required_counters"] = {k: stats[k] for k in required}
